@@ -137,10 +137,16 @@ FamCyc ==
             a |-> Permit(And(<<Or(<<CSS("b")>>), CSS("x")>>)),     \* a = b && x
             b |-> Permit(And(<<Or(<<CSS("a")>>), CSS("x")>>)),     \* b = a && x
             c |-> Permit(Or(<<CSS("e"), CSS("x")>>)),              \* c = e || x
-            e |-> Permit(Or(<<CSS("c"), CSS("y")>>))]],            \* e = c || y
+            e |-> Permit(Or(<<CSS("c"), CSS("y")>>)),             \* e = c || y
+            \* cycles through an operand of && other than the first, and below a negation (the engine builds these eagerly)
+            f |-> Permit(And(<<Or(<<CSS("x")>>), CSS("f")>>)),     \* f = x && f
+            g |-> Permit(And(<<Or(<<CSS("x")>>), CSS("h")>>)),     \* g = x && h
+            h |-> Permit(And(<<Or(<<CSS("x")>>), CSS("g")>>)),     \* h = x && g
+            ng |-> Permit(Or(<<Not(CSS("g"))>>))]],                \* ng = !g
    U |-> << Tup("D","d","x", Id("u")), Tup("D","d","y", Id("v")), Tup("D","d","x", Id("w")), Tup("D","d","y", Id("w")) >>,
    Q |-> << Tup("D","d","a", Id("u")), Tup("D","d","b", Id("u")), Tup("D","d","c", Id("u")), Tup("D","d","e", Id("u")),
-            Tup("D","d","c", Id("v")), Tup("D","d","e", Id("z")) >>]
+            Tup("D","d","c", Id("v")), Tup("D","d","e", Id("z")),
+            Tup("D","d","f", Id("u")), Tup("D","d","g", Id("u")), Tup("D","d","ng", Id("u")) >>]
 
 Fams == [cyc |-> FamCyc, ttu2 |-> FamTtu2, diam |-> FamDiam, rw |-> FamRw, nest |-> FamNest, plain |-> FamPlain, rec |-> FamRec, strictx |-> FamStrictX, alias |-> FamAlias]
 \* the alias family's namespaces carry a '-' and cannot be record fields
